@@ -21,7 +21,7 @@
    _finish_userauth) run to completion within the packet's own step, as asyncssh buffers further input for them.  Application callbacks are fixed to
    what the harness applications answer: begin_auth = True, validate_password = table lookup,
    password_auth_requested = a password, password_change_requested = NotImplemented,
-   client preferred_auth = [password], no rekey thresholds, no timers, no compression, no GSS, no EXT_INFO sent.
+   client preferred_auth folded into the class of USERAUTH_FAILURE, no rekey thresholds, no timers, no compression, no GSS, no EXT_INFO sent.
 
    The functions that depend on them carry two switches ([..._g fixed fixk]) so that one set of lemmas
    covers the code before and after two repairs:
@@ -34,9 +34,13 @@
 From AV Require Import Base.Prelude.
 
 Inductive task :=
-| TClientAuth (m : Z)                         (* ClientAuth._start of method m: 0 none, 1 password *)
+| TClientAuth (m : Z)                         (* ClientAuth._start of method m: 0 none, 1 password, 2 keyboard-interactive *)
 | TChangePw                                   (* _ClientPasswordAuth._change_password *)
-| TServerPw (u pw : Z).                       (* _ServerPasswordAuth._start for user u *)
+| TClientKbdResp                              (* _ClientKbdIntAuth._receive_challenge: answers the challenge *)
+| TServerPw (u pw : Z)                        (* _ServerPasswordAuth._start for user u *)
+| TServerKbd (u : Z)                          (* _ServerKbdIntAuth._start: sends the challenge *)
+| TServerKbdResp (u ok : Z)                   (* _ServerKbdIntAuth._validate_response; ok = 0: the answer is right *)
+| TServerPk.                                  (* _ServerPublicKeyAuth._start with a key the application rejects *)
 
 Record conn := mkconn {
   srv : bool;
@@ -198,7 +202,7 @@ Definition on_kexmsg (c : conn) (seq t cls : Z) : conn :=
 
 (* try_next_auth (client) *)
 Definition not_client_task (k : task) : bool :=
-  match k with TClientAuth _ => false | TChangePw => false | _ => true end.
+  match k with TClientAuth _ => false | TChangePw => false | TClientKbdResp => false | _ => true end.
 
 Definition try_next_auth (c : conn) (next_method : bool) : conn :=
   let c1 := set_req_issued false (set_auth 0 (set_pending (filter not_client_task (pending c)) c)) in
@@ -233,7 +237,8 @@ Definition pw_valid (u pw : Z) : bool := ((u =? 1) && (pw =? 1)) || ((u =? 2) &&
 Definition send_userauth_failure (c : conn) : conn := send_packet (set_auth 0 c) 51 0.
 
 Definition not_server_task (k : task) : bool :=
-  match k with TServerPw _ _ => false | _ => true end.
+  match k with TServerPw _ _ => false | TServerKbd _ => false | TServerKbdResp _ _ => false | TServerPk => false
+             | _ => true end.
 
 Definition on_userauth_request (c : conn) (cls : Z) : conn :=
   if cls <? 0 then fatal c
@@ -246,7 +251,10 @@ Definition on_userauth_request (c : conn) (cls : Z) : conn :=
        (the credential check) is what stays pending *)
     let u := cls / 100 in
     let c1 := set_user u (set_auth 0 (set_pending (filter not_server_task (pending c)) c)) in
-    if (cls / 10) mod 10 =? 1 then set_pending (pending c1 ++ [TServerPw u (cls mod 10)]) (set_auth 3 c1)
+    let md := (cls / 10) mod 10 in
+    if md =? 1 then set_pending (pending c1 ++ [TServerPw u (cls mod 10)]) (set_auth 3 c1)
+    else if md =? 3 then set_pending (pending c1 ++ [TServerKbd u]) (set_auth 4 c1)
+    else if md =? 4 then set_pending (pending c1 ++ [TServerPk]) (set_auth 5 c1)
     else send_userauth_failure c1.
 
 
@@ -255,9 +263,13 @@ Definition send_userauth_success (c : conn) : conn :=
   send_deferred (set_authed (user c1) (set_next_service false (set_auth_complete true
                 (set_auth_in_prog false (set_auth 0 c1))))).
 
-(* USERAUTH_FAILURE (client).  cls: 0 = the list offers password, other = it does not *)
+(* USERAUTH_FAILURE (client).  cls = the offered methods the client is configured to use, in its order of
+   preference: 0 none of them, 1 [password], 2 [keyboard-interactive], 3 [keyboard-interactive; password] *)
+Definition failure_methods (cls : Z) : list Z :=
+  if cls =? 1 then [1] else if cls =? 2 then [2] else if cls =? 3 then [2; 1] else [].
+
 Definition on_userauth_failure (c : conn) (cls : Z) : conn :=
-  let c1 := set_methods (if cls =? 0 then [1] else []) c in
+  let c1 := set_methods (failure_methods cls) c in
   if negb (srv c1) && negb (auth c1 =? 0) then try_next_auth c1 false else fatal c1.
 
 (* USERAUTH_SUCCESS (client) *)
@@ -271,12 +283,18 @@ Definition on_userauth_success_g (fixed : bool) (c : conn) : conn :=
 (* the client hands the banner to the application (auth_banner_received) *)
 Definition on_banner (c : conn) : conn := if srv c then fatal c else set_app_events (app_events c + 1) c.
 
-(* method specific messages 60..79, routed to the auth object:
-   auth 1 = client 'none' (no handlers), 2 = client password (60 = PASSWD_CHANGEREQ), 3 = server password
-   object (no handlers) *)
-Definition on_authmsg (c : conn) (seq t : Z) : conn :=
-  if (auth c =? 2) && (t =? 60)
-  then set_pending (filter not_client_task (pending c) ++ [TChangePw]) c     (* Auth.create_task cancels the start task *)
+(* method specific messages 60..79, routed to the auth object.
+   client objects (auth = method + 1): 1 'none' (no handlers), 2 password (60 = PASSWD_CHANGEREQ),
+   3 keyboard-interactive (60 = INFO_REQUEST);
+   server objects: 3 password (no handlers), 4 keyboard-interactive (61 = INFO_RESPONSE; cls 0 = the right answer),
+   5 publickey (no handlers).  Auth.create_task cancels the object's previous task. *)
+Definition on_authmsg (c : conn) (seq t cls : Z) : conn :=
+  if negb (srv c) && (auth c =? 2) && (t =? 60)
+  then set_pending (filter not_client_task (pending c) ++ [TChangePw]) c
+  else if negb (srv c) && (auth c =? 3) && (t =? 60)
+  then set_pending (filter not_client_task (pending c) ++ [TClientKbdResp]) c
+  else if srv c && (auth c =? 4) && (t =? 61)
+  then set_pending (filter not_server_task (pending c) ++ [TServerKbdResp (user c) cls]) c
   else unimpl c seq.
 
 (* ---- the phase gate of _recv_packet ------------------------------------------------------------------- *)
@@ -300,7 +318,7 @@ Definition on_connmsg_g (fixed fixk : bool) (c : conn) (seq t cls : Z) : conn :=
 Definition dispatch_g (fixed fixk : bool) (c : conn) (seq t cls : Z) : conn :=
   if (30 <=? t) && (t <=? 49) then (if kex c then on_kexmsg c seq t cls else fatal c)
   else if strict c && negb (recv_enc c) && (2 <=? t) && (t <=? 4) then fatal c
-  else if (60 <=? t) && (t <=? 79) then (if negb (auth c =? 0) then on_authmsg c seq t else fatal c)
+  else if (60 <=? t) && (t <=? 79) then (if negb (auth c =? 0) then on_authmsg c seq t cls else fatal c)
   else if (49 <? t) && negb (recv_enc c) then fatal c
   else if (79 <? t) && negb (auth_complete c) then fatal c
   else if is_deleg t then set_deleg true c
@@ -338,8 +356,13 @@ Definition run_task (c : conn) (k : task) : conn :=
   match k with
   | TClientAuth m => set_req_issued true (send_packet c 50 0)     (* send_userauth_request hands the request to send_packet *)
   | TChangePw => try_next_auth (set_app_events (app_events c + 1) c) true    (* password_change_requested -> NotImplemented *)
+  | TClientKbdResp => send_packet c 61 0                   (* kbdint_challenge_received answers; INFO_RESPONSE *)
   | TServerPw u pw =>
       if pw_valid u pw then send_userauth_success c else send_userauth_failure c
+  | TServerKbd u => send_packet c 60 0                      (* get_kbdint_challenge: INFO_REQUEST *)
+  | TServerKbdResp u ok =>                                   (* validate_kbdint_response: True / False *)
+      if ok =? 0 then send_userauth_success c else send_userauth_failure c
+  | TServerPk => send_userauth_failure c                     (* validate_public_key answers False *)
   end.
 
 Fixpoint run_tasks (fuel : nat) (c : conn) : conn :=
@@ -397,7 +420,11 @@ Definition verdict_eqb (a b : verdict) : bool :=
 (* ---- reading the generated table (Gen/MsgGate.v) ---------------------------------------------------------
    The table is a function rowf : server? -> phase -> strict? -> variant -> string of 256 verdict letters.
    phases 0..8 = K0 pre-kexinit, K1 kex-running, K2 kex-newkeys-sent, E0 post-newkeys-pre-service,
-   A0 auth-running, A1 auth-done, C0 authenticated, R0 rekey-running, R1 rekey-newkeys-sent;
+   A0 auth-running, A1 auth-done, C0 authenticated, R0 rekey-running, R1 rekey-newkeys-sent; phases 9..12 come from
+   a second session with several authentication methods: M0 keyboard-interactive attempt running;
+   M1 server: that attempt failed / client: answer sent; M2 server: publickey attempt failed / client:
+   keyboard-interactive failed, password request outstanding; M3 server: password attempt failed / client:
+   authenticated through keyboard-interactive;
    variants 0..3 = well-formed, empty body, last byte cut off, one trailing byte.
    Everything below is parametric in rowf so that a scratch run can check a live table that differs from
    the committed one. *)
@@ -414,7 +441,7 @@ Definition lookup (rowf : rowfun) (server : bool) (phase : Z) (strict_ : bool) (
 
 Definition zrange (n : nat) : list Z := map Z.of_nat (seq 0 n).
 
-Definition NPHASES : nat := 9.
+Definition NPHASES : nat := 13.
 Definition NVARIANTS : nat := 4.
 Definition NTYPES : nat := 256.
 
@@ -465,8 +492,23 @@ Definition p_total (sv : bool) (ph : Z) (sk : bool) (va t : Z) (w v : verdict) :
 Definition p_prekex (sv : bool) (ph : Z) (sk : bool) (va t : Z) (w v : verdict) : bool :=
   if (ph <=? 2) && verdict_eqb v VH then calls_for sv ph t else true.
 
+(* phases in which authentication has not completed / has completed *)
+Definition preauth_phase (sv : bool) (ph : Z) : bool :=
+  (ph <=? 4) || ((9 <=? ph) && (ph <=? 11)) || ((ph =? 12) && sv).
+Definition postauth_phase (sv : bool) (ph : Z) : bool :=
+  ((5 <=? ph) && (ph <=? 8)) || ((ph =? 12) && negb sv).
+(* phases in which no authentication attempt is in progress on the endpoint: a server everywhere except while its
+   keyboard-interactive challenge is outstanding (M0) - in particular after every attempt that ended in FAILURE
+   (A0, M1, M2, M3); a client before its first request and after authentication completed *)
+Definition no_attempt (sv : bool) (ph : Z) : bool :=
+  if sv then negb (ph =? 9) else (ph <=? 3) || postauth_phase false ph.
+
 Definition p_preauth (sv : bool) (ph : Z) (sk : bool) (va t : Z) (w v : verdict) : bool :=
-  if (ph <=? 4) && verdict_eqb v VH then t <=? 79 else true.
+  if preauth_phase sv ph && verdict_eqb v VH then t <=? 79 else true.
+
+(* method-specific authentication messages (60..79) end the connection unless an attempt is in progress *)
+Definition p_stale (sv : bool) (ph : Z) (sk : bool) (va t : Z) (w v : verdict) : bool :=
+  if no_attempt sv ph && (60 <=? t) && (t <=? 79) then verdict_eqb v VF else true.
 
 Definition p_role (sv : bool) (ph : Z) (sk : bool) (va t : Z) (w v : verdict) : bool :=
   if foreign_to sv t then negb (verdict_eqb v VH) else true.
@@ -480,7 +522,7 @@ Definition p_strict (sv : bool) (ph : Z) (sk : bool) (va t : Z) (w v : verdict) 
 (* after authentication completed: a further USERAUTH_REQUEST is ignored or fatal on a server, a further
    FAILURE / SUCCESS is fatal on a client *)
 Definition p_postauth (sv : bool) (ph : Z) (sk : bool) (va t : Z) (w v : verdict) : bool :=
-  if 5 <=? ph then
+  if postauth_phase sv ph then
     (if sv && (t =? 50) then verdict_eqb v VI || verdict_eqb v VF
      else if negb sv && ((t =? 51) || (t =? 52)) then verdict_eqb v VF else true)
   else true.
